@@ -503,6 +503,144 @@ def gen_next_job(bmod):
             "  (if is_nil_nat st then %s else match ty with %s end).\n" % (empty, " ".join(arms)))
 
 
+def _ret_const(st, what):
+    if not (isinstance(st, ast.Return) and ast.unparse(st.value) in ("True", "False")):
+        raise Unsupported(what + ": expected `return True/False`, got " + ast.unparse(st)[:80])
+    return "true" if ast.unparse(st.value) == "True" else "false"
+
+
+BUFFER_KINDS = {
+    "buffer.id in [b.id for b in instance.buffers]": "(match b with BStd _ => true | _ => false end)",
+    "buffer.id in [m.postbuffer.id for m in instance.machines]": "(match b with BPost _ => true | _ => false end)",
+    "buffer.id in [m.prebuffer.id for m in instance.machines]": "(match b with BPre _ => true | _ => false end)",
+    "buffer.id in [m.buffer.id for m in instance.machines]": "(match b with BIn _ => true | _ => false end)",
+    "buffer.id in [t.buffer.id for t in instance.transports]": "(match b with BAgv _ => true | _ => false end)",
+}
+
+
+def gen_ok_buffer(bmod):
+    """job_in_correct_buffer_for_pickup: a chain of `if <buffer kind test>: return <const>` and a final `return <const>`"""
+    f = find_func(bmod.body, "job_in_correct_buffer_for_pickup")
+    if [a.arg for a in f.args.args] != ["instance", "buffer"]:
+        raise Unsupported("job_in_correct_buffer_for_pickup signature")
+    b = body_wo_doc(f)
+    if not b:
+        raise Unsupported("job_in_correct_buffer_for_pickup: empty body")
+    acc = _ret_const(b[-1], "job_in_correct_buffer_for_pickup")
+    for st in reversed(b[:-1]):
+        if not (isinstance(st, ast.If) and not st.orelse and len(st.body) == 1):
+            raise Unsupported("job_in_correct_buffer_for_pickup statement: " + ast.unparse(st)[:80])
+        t = ast.unparse(st.test)
+        if t not in BUFFER_KINDS:
+            raise Unsupported("job_in_correct_buffer_for_pickup test: " + t)
+        acc = "(if %s then %s else %s)" % (BUFFER_KINDS[t], _ret_const(st.body[0], "job_in_correct_buffer_for_pickup"), acc)
+    return "Definition gen_ok_buffer (b : bid) : bool :=\n  %s.\n" % acc
+
+
+READY_BINDINGS = {
+    "all_buffer_configs": "get_all_buffer_configs(instance_config)",
+    "all_buffer_states": "get_all_buffer_states(state)",
+    "job_location": "job_state.location",
+    "buffer_state": "get_buffer_state_by_id(all_buffer_states, job_location)",
+    "buffer_config": "get_buffer_config_by_id(all_buffer_configs, job_location)",
+    "job_position": "get_job_position_in_buffer(job_state.id, buffer_state)",
+}
+READY_TERMS = {
+    "job_in_correct_buffer_for_pickup(instance_config, buffer_state)": "(gen_ok_buffer (j_loc jb))",
+    "is_correct_position_for_buffer_type(job_position, len(buffer_state.store), buffer_config.type)": "cp",
+}
+
+
+def gen_is_ready(bmod):
+    """is_job_ready_for_pickup_from_postbuffer: fixed lookups (state and config of the buffer the job lies in, the job's
+    position in it), two named tests, and a boolean combination of the two in the return"""
+    f = find_func(bmod.body, "is_job_ready_for_pickup_from_postbuffer")
+    if [a.arg for a in f.args.args] != ["job_state", "state", "instance_config"]:
+        raise Unsupported("is_job_ready_for_pickup_from_postbuffer signature")
+    b = body_wo_doc(f)
+    names = {}
+    seen = set()
+    for st in b[:-1]:
+        if not (isinstance(st, ast.Assign) and len(st.targets) == 1 and isinstance(st.targets[0], ast.Name)):
+            raise Unsupported("is_job_ready...: statement " + ast.unparse(st)[:80])
+        v, e = st.targets[0].id, ast.unparse(st.value)
+        if v in READY_BINDINGS:
+            if READY_BINDINGS[v] != e:
+                raise Unsupported("is_job_ready...: %s = %s" % (v, e))
+            seen.add(v)
+        elif e in READY_TERMS:
+            names[v] = READY_TERMS[e]
+        else:
+            raise Unsupported("is_job_ready...: %s = %s" % (v, e))
+    if seen != set(READY_BINDINGS):
+        raise Unsupported("is_job_ready...: lookups missing: %s" % sorted(set(READY_BINDINGS) - seen))
+    r = b[-1]
+    if not isinstance(r, ast.Return):
+        raise Unsupported("is_job_ready...: no final return")
+
+    def bexp(e):
+        if isinstance(e, ast.Name) and e.id in names:
+            return names[e.id]
+        if isinstance(e, ast.BoolOp) and len(e.values) == 2:
+            return "(%s %s %s)" % ("andb" if isinstance(e.op, ast.And) else "orb", bexp(e.values[0]), bexp(e.values[1]))
+        if isinstance(e, ast.UnaryOp) and isinstance(e.op, ast.Not):
+            return "(negb %s)" % bexp(e.operand)
+        raise Unsupported("is_job_ready...: return " + ast.unparse(e))
+    body = bexp(r.value)
+    if "cp" not in body:
+        raise Unsupported("is_job_ready...: the position test is not used in the result")
+    return ("Definition gen_is_ready (i : inst) (x : state) (jn : nat) (jb : job) : res bool :=\n"
+            "  b <- of_opt EInvalidValue (get_buf x (j_loc jb)) ;;\n  c <- of_opt EInvalidValue (get_bcfg i (j_loc jb)) ;;\n"
+            "  cp <- is_correct_position (index_of jn (b_store b)) (length (b_store b)) (bc_type c) ;;\n  Ok %s.\n" % body)
+
+
+def gen_is_early(pmod):
+    f = find_func(pmod.body, "is_early_transport")
+    if [a.arg for a in f.args.args] != ["job_state", "state", "instance"]:
+        raise Unsupported("is_early_transport signature")
+    b = body_wo_doc(f)
+    if not (len(b) == 2 and isinstance(b[0], ast.Assign) and len(b[0].targets) == 1 and isinstance(b[0].targets[0], ast.Name)
+            and ast.unparse(b[0].value) == "buffer_type_utils.is_job_ready_for_pickup_from_postbuffer(job_state=job_state, state=state, instance_config=instance)"
+            and isinstance(b[1], ast.Return)):
+        raise Unsupported("is_early_transport shape")
+    v = b[0].targets[0].id
+    r = ast.unparse(b[1].value)
+    if r == "not " + v:
+        e = "(negb r)"
+    elif r == v:
+        e = "r"
+    else:
+        raise Unsupported("is_early_transport return: " + r)
+    return ("Definition gen_is_early (i : inst) (x : state) (jn : nat) (jb : job) : res bool :=\n"
+            "  r <- gen_is_ready i x jn jb ;;\n  Ok %s.\n" % e)
+
+
+def gen_is_transportable(pmod):
+    f = find_func(pmod.body, "is_transportable")
+    if [a.arg for a in f.args.args] != ["job_state", "state", "instance"]:
+        raise Unsupported("is_transportable signature")
+    b = body_wo_doc(f)
+    shape = [ast.unparse(st.test) if isinstance(st, ast.If) else type(st).__name__ for st in b]
+    want = ["job_type_utils.is_done(job_state, instance)", "job_type_utils.all_operations_done(job_state)", "Assign",
+            "next_op is None",
+            "is_job_at_machine(job_state, machine_type_utils.get_machine_state_by_id(state.machines, next_op.machine_id))", "Return"]
+    if shape != want:
+        raise Unsupported("is_transportable shape: %s" % shape)
+    if ast.unparse(b[2]) != "next_op = job_type_utils.get_next_idle_operation(job_state)":
+        raise Unsupported("is_transportable: " + ast.unparse(b[2]))
+    for k in (0, 1, 4):
+        if b[k].orelse or len(b[k].body) != 1:
+            raise Unsupported("is_transportable: branch %d" % k)
+    if b[3].orelse or len(b[3].body) != 1 or not (isinstance(b[3].body[0], ast.Raise) and "InvalidValue" in ast.unparse(b[3].body[0])):
+        raise Unsupported("is_transportable: missing-operation branch")
+    c0, c1, c4, c5 = (_ret_const(b[0].body[0], "is_transportable"), _ret_const(b[1].body[0], "is_transportable"),
+                      _ret_const(b[4].body[0], "is_transportable"), _ret_const(b[5], "is_transportable"))
+    return ("Definition gen_is_transportable (i : inst) (x : state) (jb : job) : res bool :=\n"
+            "  if gen_job_is_done i jb then Ok %s\n  else if gen_all_operations_done jb then Ok %s\n  else\n"
+            "    k <- of_opt EInvalidValue (first_idle jb) ;;\n    o <- of_opt EInvalidValue (nth_error (j_ops jb) k) ;;\n"
+            "    _ <- get_mach x (o_mach o) ;;\n    Ok (if is_job_at_machine jb (o_mach o) then %s else %s).\n" % (c0, c1, c4, c5))
+
+
 def main():
     tmod = parse("jobshoplab/state_machine/core/transitions.py")
     smod = parse("jobshoplab/types/state_types.py")
@@ -511,7 +649,7 @@ def main():
     imod = parse("jobshoplab/types/instance_config_types.py")
     out = ["(* GENERATED by harness/translate_kernels.py from /repo - do not edit. *)",
            "From Coq Require Import List ZArith Bool.",
-           "From JSL Require Import Base.Res SM.Types SM.Util SM.Step.",
+           "From JSL Require Import Base.Res Base.ListX SM.Types SM.Util SM.Step.",
            "Import ListNotations.", "",
            "Definition btype_eqb (a b : btype) : bool :=",
            "  match a, b with Fifo, Fifo | Lifo, Lifo | Flex, Flex | Dummy, Dummy => true | _, _ => false end.", ""]
@@ -551,6 +689,12 @@ def main():
     out.append(gen_job_is_done(jmod))
     out.append(gen_core_is_done(cmod, bmod))
     out.append(gen_next_job(bmod))
+    # readiness for pickup, early transport, transportability
+    pmod = parse("jobshoplab/utils/state_machine_utils/possible_transition_utils.py")
+    out.append(gen_ok_buffer(bmod))
+    out.append(gen_is_ready(bmod))
+    out.append(gen_is_early(pmod))
+    out.append(gen_is_transportable(pmod))
     OUT.parent.mkdir(parents=True, exist_ok=True)
     text = "\n".join(out)
     if not OUT.exists() or OUT.read_text() != text:
